@@ -89,6 +89,13 @@ impl<'a> Visitor for V<'a> {
                 if post.seq != pre.seq {
                     return Err(format!("{d}: a failed call moved the sequence number from {} to {} (the number counts successful updates)", pre.seq, post.seq));
                 }
+                if let Op::SetSeq { seq, .. } = op {
+                    // "setting the sequence number sets exactly the requested value": it may only fail
+                    // for a cause the model knows (size)
+                    if let Some(Expect::MustOk(_)) = crate::props::c08::expectation(cx, false) {
+                        return Err(format!("{d}: set_seq({seq}) failed with {k:?} ({m}) although nothing prevents setting that value"));
+                    }
+                }
                 if pre.seq == u64::MAX && !matches!(op, Op::SetSeq { .. }) {
                     self.nontrivial = true;
                     self.st.label("seq:update-at-max");
